@@ -230,9 +230,8 @@ package graphql
 //@   keeps []interface{}, []*outputNode, Enum
 //@   ghost filled map[int]bool
 //@   call unwrap assert arg0 == sources[i]
-//@   call outputNode.Fill assert arg0 == destinations[i]
 // C14: the value written for an enum is the advertised name of a member of the enum's ReverseMap (what introspection's enumValues lists)
-//@   call outputNode.Fill assert (val in typ.ReverseMap) && arg1 == any(typ.ReverseMap[val])
+//@   call outputNode.Fill assert arg0 == destinations[i] && (val in typ.ReverseMap) && arg1 == any(typ.ReverseMap[val])
 //@   call outputNode.Fail assert arg0 == destinations[i]
 //@   call outputNode.Fill ghost filled[i] = true
 //@   ensures err == nil ==> forall k int :: 0 <= k && k < len(sources) ==> filled[k]
